@@ -103,4 +103,13 @@ CHECKS['C02'] = {
   'technique': 'sibling agreement over extracted probe fragments, polynomial layout comparison, guard dominance, header partial evaluation',
 }
 
+CHECKS['C09'] = {
+  'text': 'Decides the three-way discipline of every Cmp.cmp slot function (literals, C three-way comparisons of (self, obj) in '
+          'order, or cast-free sign expressions over the two numeric values that evaluate to sign(a-b) on operands far apart), the '
+          'truth sets of the six derived predicates over the sign of cmp, sibling agreement of the container comparison decision '
+          'tables, and the guards of the byte-wise default. Does not decide value-level laws of strcmp/memcmp or NaN.',
+  'note': ASSUME,
+  'technique': 'sign-domain evaluation of extracted return expressions, narrowing-conversion detection, sibling decision-table agreement',
+}
+
 NOT_APPLICABLE = {}
